@@ -194,12 +194,21 @@ fn run_sweep(s: &Sweep) -> SweepResult {
     r
 }
 
+/// TCP probes whose local port is taken are re-issued under the next sequence number: the
+/// re-issued probe is a probe the tracer emits, and its answers must be recognised as its own.
+fn reissue_menu() -> Menu {
+    Menu { delay: true, bind_faults: vec![crate::simnet::EADDRINUSE], connect_faults: vec![crate::simnet::EADDRINUSE], ..Menu::default() }
+}
+
 pub fn replay(path: &str) -> i32 {
     let s = std::fs::read_to_string(path).expect("MACHINERY: cannot read replay file");
     let v: Value = serde_json::from_str(&s).expect("MACHINERY: replay JSON");
     let r = if v.get("replay").is_some() { &v["replay"] } else { &v };
     if r["check"].as_str() == Some("C02x") {
         return c01::replay_as(path, "C02");
+    }
+    if r["check"].as_str() == Some("C02r") {
+        return c01::replay_as_menu(path, "C02", reissue_menu());
     }
     let alter = match r["alter"].as_str().unwrap_or("None") {
         "Some(DestAddr)" => Some(Alter::DestAddr),
@@ -357,6 +366,55 @@ pub fn run(args: &Args) -> i32 {
             }
         }
     });
+    // re-issued TCP probes (local port in use at bind / connect): every answer to a re-issued probe
+    // is attributed to it (same ground-truth judge)
+    let rtasks: Vec<c01::Task> = all_cells()
+        .into_iter()
+        .filter(|c| c.proto == Proto::Tcp && !c.ext)
+        .flat_map(|cell| {
+            ["L2", "L3", "silent-mid"].into_iter().map(move |topo| {
+                let mut p = TraceParams::default();
+                p.packet_size = if cell.v6 { 96 } else { 84 };
+                c01::Task { cell, topo, params: p, bound: if tier == Tier::Thorough { 3 } else { 2 } }
+            })
+        })
+        .collect();
+    let ragg = Mutex::new((mc::ExploreStats::default(), 0u64));
+    mc::par_for(rtasks.len(), mc::workers(), |ti| {
+        let t = &rtasks[ti];
+        let mut local: BTreeMap<String, Finding> = BTreeMap::new();
+        let mut reissued_answered = 0u64;
+        let stats = mc::explore(t.bound, 400, &mut |ch| {
+            let c = std::mem::replace(ch, Chooser::new(&[], 0));
+            let o = c01::run_once_menu(t, reissue_menu(), c);
+            *ch = o.world.chooser.clone();
+            if o.world.attempts.iter().any(|a| matches!(a.outcome, crate::simnet::AttemptOutcome::Fault { .. })) {
+                reissued_answered += o.world.deliveries.iter().filter(|d| d.genuine).count() as u64;
+            }
+            for (k, detail) in c01::judge(t, &o) {
+                let key = format!("tcp-reissue:{k}");
+                let e = local.entry(key.clone()).or_insert_with(|| Finding { key, detail: format!("[{} {} choices={:?}] {detail}", t.cell.name(), t.topo, ch.choices), replay: c01::replay_json("C02r", t, &ch.choices), weight: (ch.deviations(), ch.choices.len()), count: 0 });
+                e.count += 1;
+            }
+            local.len() < 20
+        });
+        let mut a = ragg.lock().unwrap();
+        a.0.merge(&stats);
+        a.1 += reissued_answered;
+        drop(a);
+        let mut f = findings.lock().unwrap();
+        for (k, v) in local {
+            match f.get_mut(&k) {
+                Some(old) => old.count += v.count,
+                None => {
+                    f.insert(k, v);
+                }
+            }
+        }
+    });
+    let (rstats, ranswers) = ragg.into_inner().unwrap();
+    rep.set("tcp_reissue_executions", json!(rstats.executions));
+    rep.set("tcp_reissue_answers_checked_in_runs_with_a_reissue", json!(ranswers));
     let (xstats, xanswers) = xagg.into_inner().unwrap();
     rep.set("tcp_expiry_executions", json!(xstats.executions));
     rep.set("tcp_expiry_answers_checked", json!(xanswers));
@@ -370,7 +428,7 @@ pub fn run(args: &Args) -> i32 {
     rep.set("min_distinct_sequences_per_cell", json!(min_cov));
     rep.set("cells_with_full_sequence_range", json!(full_cov));
     rep.observe("quotations_with_altered_flow_port_accepted", json!(flow_port));
-    rep.set("rule", json!(format!("56 cells; the real strategy (first_ttl 1, max_ttl 254, max_inflight 255, initial_sequence 0) runs until the allocator wraps, so every sequence it can issue (0..=65276, Dublin/IPv6: 0..=765) is emitted by real dispatch code and answered at once by a hop with quotation shape (ttl-1+offset) mod {NSHAPES} ({{hdr+8,+28,+64,full,unreachable,ttl 0,cksum 0,tos,outer IHL 6/15,RFC4884 compliant/legacy,combo}}); quick: one shape offset per cell, thorough: all {NSHAPES} offsets = full product sequence x shape; + boundary initial sequences, 1024-octet probes (truncated quotations), target-originated answers one probe per round (Echo Reply / port unreachable / SYN-ACK). Oracle: ground-truth check of every published slot (C01's). Negative half: every response altered in one identity field (destination, pinned port - each of the two when both are pinned -, protocol, Dublin magic - one octet flipped, or a foreign datagram carrying only the first 0..5 octets of it -, ICMP identifier): no slot may complete. + tcp cells x {{L2,L3,silent-mid,dup}} x connect timeout {{5,15,25,35}} ms, all executions with <= 2 (3 thorough) deviations (attempts expiring while younger ones complete). distinct_nontrivial = recognised answers + altered quotations")));
+    rep.set("rule", json!(format!("56 cells; the real strategy (first_ttl 1, max_ttl 254, max_inflight 255, initial_sequence 0) runs until the allocator wraps, so every sequence it can issue (0..=65276, Dublin/IPv6: 0..=765) is emitted by real dispatch code and answered at once by a hop with quotation shape (ttl-1+offset) mod {NSHAPES} ({{hdr+8,+28,+64,full,unreachable,ttl 0,cksum 0,tos,outer IHL 6/15,RFC4884 compliant/legacy,combo}}); quick: one shape offset per cell, thorough: all {NSHAPES} offsets = full product sequence x shape; + boundary initial sequences, 1024-octet probes (truncated quotations), target-originated answers one probe per round (Echo Reply / port unreachable / SYN-ACK). Oracle: ground-truth check of every published slot (C01's). Negative half: every response altered in one identity field (destination, pinned port - each of the two when both are pinned -, protocol, Dublin magic - one octet flipped, or a foreign datagram carrying only the first 0..5 octets of it -, ICMP identifier): no slot may complete. + tcp cells x {{L2,L3,silent-mid,dup}} x connect timeout {{5,15,25,35}} ms, all executions with <= 2 (3 thorough) deviations (attempts expiring while younger ones complete); + tcp cells x {{L2,L3,silent-mid}} with address-in-use offered at every bind and connect (the probe is re-issued under the next sequence) and delays, same bound: answers to re-issued probes are attributed to them. distinct_nontrivial = recognised answers + altered quotations")));
     for s in samples {
         rep.sample(s);
     }
